@@ -4,8 +4,8 @@
    than what the exhaustive configurations enumerate: 1..6 declarations referring to each other, up to
    8 fields, wrapper stacks up to 3, integers anywhere in their range, literals to depth 6):
      kind = "map":  id, prog (declarations in JsonMap's encoding), d (name), v (the value),
-                    obs (Canon of v.to_json()), rt, rtt, pe, fe, sp, panic
-     kind = "lit":  id, ast, obs (Canon of json!(..)), eq (== Value::parse(equivalent text)), panic
+                    compiled (FALSE: rustc rejected the module), obs (Canon of v.to_json()), rt, rtt, pe, fe, sp, panic
+     kind = "lit":  id, ast, compiled, obs (Canon of json!(..)), eq (== Value::parse(equivalent text)), panic
    TLC evaluates the theorems of JsonMap on each record: the observation must be what Dev = {} predicts.
    A record that instead shows exactly what one deviation of AttrDevs predicts is listed as attributed
    to it; anything else is rejected.  With EXPECT = "1" nothing is judged: the documented JSON of each
@@ -13,7 +13,7 @@
 EXTENDS JsonMap, Json, IOUtils
 
 Rec == ndJsonDeserialize(IOEnv.TRACE)
-AttrDevs == <<"IntBeyond2p53", "NullTruncatesArray">>
+AttrDevs == <<"IntBeyond2p53", "NullTruncatesArray", "DocAttrPanics">>
 NoSeq == <<>>
 
 \* the inputs must lie in the property's domain
@@ -32,14 +32,17 @@ InDomain(r) ==
 MapAgrees(r, D) ==
   LET d == Lookup(r.prog, r.d)
       o == Observe(r.v, d, r.prog, D) IN
-  /\ r.panic = ""
-  /\ r.obs = o.obs
-  /\ r.rt = o.rt /\ r.rtt = o.rt          \* the round trip through text has the same verdict (serialise/parse: C13)
-  /\ r.pe = o.pe /\ r.fe = o.fe
-  /\ r.sp                                  \* Value::parse(to_string(v)) == to_json(v)
+  /\ r.compiled = o.c
+  /\ r.compiled =>
+       /\ r.panic = ""
+       /\ r.obs = o.obs
+       /\ r.rt = o.rt /\ r.rtt = o.rt          \* the round trip through text has the same verdict (serialise/parse: C13)
+       /\ r.pe = o.pe /\ r.fe = o.fe
+       /\ r.sp                                  \* Value::parse(to_string(v)) == to_json(v)
 LitAgrees(r, D) ==
   LET o == ObserveLit(r.ast, D) IN
-  r.panic = "" /\ o.ok /\ r.obs = o.obs /\ r.eq = o.eq
+  /\ r.compiled = o.ok
+  /\ r.compiled => (r.panic = "" /\ r.obs = o.obs /\ r.eq = o.eq)
 Agrees(r, D) == IF r.kind = "map" THEN MapAgrees(r, D) ELSE LitAgrees(r, D)
 
 Verdict(r) ==
